@@ -14,10 +14,6 @@ package cache
 //@   ensures 0 <= n && n <= len(p)
 //@   assigns p
 
-//@ external func (w io.Writer) Write(p []byte) (n int, err error)
-//@   ensures 0 <= n && n <= len(p)
-//@   assigns nothing
-
 //@ func (h Header) Validate(rsum, dsum, bsum []byte) (err error)
 //@   prop C13
 //@   ensures root: isnil(err) ==> eqBytes(rsum, h.RootSum)
@@ -33,3 +29,34 @@ package cache
 //@   ensures contiguous: isnil(err) ==> fresh(hd.RootSum) && refof(hd.DataSum) == refof(hd.RootSum) && refof(hd.BodySum) == refof(hd.RootSum) &&
 //@      offof(hd.RootSum) == 0 && offof(hd.DataSum) == size && offof(hd.BodySum) == 2*size
 //@   assigns nothing
+
+// Open / Close wiring (C13).  The hash and the file are external; what is checked is that the
+// code compares the right things in the right order.  Ghost integers maintained by the
+// external calls: ghostint("hs") = what has been fed to the hash since its last Reset (each
+// Write counts 1, an io.Copy into it counts 100), ghostint("sumstate") = that value at the
+// last Sum, ghostint("fpos") = offset of the last Seek from the start, ghostint("copyfrom") =
+// fpos at the last io.Copy.
+
+// An entry is returned without error only if the header read from the file carries the
+// caller's root and data sums and the digest of the rest of the file, taken after a Reset and
+// exactly one copy of the file remainder into the hash; the reader is then positioned right
+// after the header.
+//@ func Open(path string, h hash.Hash, rsum, dsum []byte) (file *File, err error)
+//@   prop C13
+//@   requires !isnil(h)
+//@   ensures verified: isnil(err) ==> !isnil(file) && eqBytes(rsum, file.hd.RootSum) && eqBytes(dsum, file.hd.DataSum) && eqBytes(lastSum, file.hd.BodySum)
+//@   ensures digest_of_body: isnil(err) ==> ghostint("sumstate") == 100
+//@   ensures positioned: isnil(err) ==> ghostint("fpos") == 3*len(file.hd.RootSum) && len(file.hd.DataSum) == len(file.hd.RootSum) && len(file.hd.BodySum) == len(file.hd.RootSum)
+
+// Close of a writable entry: the body digest written into the header is taken after the
+// file was rewound to just after the header and copied once into a freshly reset hash; the
+// header is then written at offset 0.
+//@ func (f *File) Close() (err error)
+//@   prop C13
+//@   requires !isnil(f) && !isnil(f.f) && !isnil(f.h) && !isnil(f.rd)
+//@   callpre WriteTo(w): ghostint("sumstate") == 100 && ghostint("fpos") == 0
+//@   callpre Copy(dst, src): ghostint("hs") == 0
+
+//@ func (h Header) WriteTo(w io.Writer) (n int64, err error)
+//@   prop C13
+//@   requires !isnil(w)
